@@ -1,5 +1,6 @@
 """C08 probe: operation futures over sync gRPC, asyncio gRPC and REST, all poll histories."""
 import asyncio
+import json
 import urllib.parse
 
 from mc import probelib, seams
@@ -130,6 +131,11 @@ def main(p):
         else:
             out['outcomes']['ok-raw'] = out['outcomes'].get('ok-raw', 0) + 1
 
+    if a.get('debug_logging'):
+        # client logging switched on: the transports' logging interceptors see every request, the polls included
+        import logging
+        logging.getLogger().setLevel(logging.DEBUG)
+        logging.getLogger().addHandler(logging.NullHandler())
     client_kind = a['client']
     if client_kind == 'sync':
         client, ch = lib.sync('Lro', clock)
@@ -211,6 +217,11 @@ def main(p):
             for hist, ops in histories(cell):
                 seam.log.clear()
                 seam.script = [(200, json_format.MessageToJson(o, descriptor_pool=p.pool).encode()) for o in ops]
+                if a.get('unknown_member'):
+                    # a newer server: the first reply carries a member this client does not know
+                    first = json.loads(seam.script[0][1])
+                    first['selfLink'] = 'https://example.com/ops/1'
+                    seam.script[0] = (200, json.dumps(first).encode())
                 md = res = exc = None
                 try:
                     fut = meth(request={'name': 'things/1'})
